@@ -333,6 +333,10 @@ func (l *NDNLPLinkService) handleIncomingFrame(frame []byte) {
 			baseSequence := *LP.Sequence - fragIndex
 
 			core.LogTrace(l, "Received fragment ", fragIndex, " of ", fragCount, " for ", baseSequence)
+			if fragIndex >= fragCount || fragCount > defn.MaxNDNPacketSize {
+				core.LogWarn(l, "Received NDNLPv2 frame with invalid FragIndex=", fragIndex, " FragCount=", fragCount, " - DROP")
+				return
+			}
 			if fragIndex == 0 && fragCount == 1 {
 				// Bypass reassembly since only one fragment
 			} else {
@@ -409,6 +413,11 @@ func (l *NDNLPLinkService) reassemblePacket(
 	// Safe to call Join since there is only one fragment
 	if len(frame.Fragment) > 1 {
 		core.LogError("LpPacket should only have one fragment.")
+	}
+	if fragIndex >= uint64(len(l.partialMessageStore[baseSequence])) {
+		// FragCount disagrees with the fragments received earlier for this message
+		core.LogWarn(l, "Received NDNLPv2 fragment with FragIndex=", fragIndex, " outside the message - DROP")
+		return nil
 	}
 	l.partialMessageStore[baseSequence][fragIndex] = frame.Fragment.Join()
 
